@@ -19,6 +19,7 @@ using namespace Tins;
 using namespace vf;
 
 static std::vector<Bytes> g_seeds;          // read-only after start-up
+static std::vector<Bytes> g_ccmp, g_tkip;   // the unit tests' WPA2 captures (beacon, 4-way handshake, data), in order
 static std::atomic<u64> g_ticket{0};
 
 struct OpLog { u64 t0, t1; int kind; };
@@ -104,6 +105,10 @@ static u64 op_crypto(Rng& r) {
       w.add_decryption_keys(std::make_pair(ap, stn), Crypto::WPA2::SessionKeys(p, r.chance(1, 2)));
       Dot11QoSData d(ap, stn); d.addr3(ap); d.to_ds(1); d.wep(1); Bytes body = r.bytes(20 + r.below(80)); d.inner_pdu(new RawPDU(body.data(), (u32)body.size())); RadioTap rt; rt.inner_pdu(d); h = mix(h, w.decrypt(rt)); h = mix(h, rt.size()); }
     if (r.chance(1, 4)) { Crypto::WPA2::SupplicantData sd("passphrase" + std::to_string(r.below(4)), "ssid" + std::to_string(r.below(4))); h = fnv(sd.pmk().data(), sd.pmk().size(), h); }
+    // a complete 4-way handshake + data frames from the unit tests' captures (PBKDF2, PRF, MIC verification, CCMP/TKIP)
+    if (r.chance(1, 3) && g_ccmp.size() >= 7 && g_tkip.size() >= 7) { bool ccmp = r.chance(1, 2); Crypto::WPA2Decrypter w; if (ccmp) w.add_ap_data("Induction", "Coherer"); else w.add_ap_data("libtinstest", "NODO");
+        for (const Bytes& b : (ccmp ? g_ccmp : g_tkip)) { try { RadioTap rt(b.data(), (u32)b.size()); bool ok = w.decrypt(rt); h = mix(h, ok); if (ok) h = dig_pdu(rt, h); } catch (const malformed_packet&) { h = mix(h, 0xbad); } }
+        h = mix(h, w.get_keys().size()); for (auto& kv : w.get_keys()) h = fnv(kv.second.get_ptk().data(), kv.second.get_ptk().size(), h); }
     return h;
 }
 static u64 op_addresses(Rng& r) {
@@ -166,7 +171,7 @@ int main(int argc, char** argv) {
         sig(mix(fnv(std::string("case")), (u64)idx));
         if (want_sample()) sample("threads=" + std::to_string(k) + " first-op=" + KIND[first] + " distinct overlapping kind pairs=" + std::to_string(ov.size()));
     }, [&]() {
-        std::ifstream f(st().a.get("corpus")); std::string tag, hx; while (f >> tag >> hx) g_seeds.push_back(unhex(hx));
+        std::ifstream f(st().a.get("corpus")); std::string tag, hx; while (f >> tag >> hx) { g_seeds.push_back(unhex(hx)); if (tag.find("::ccmp_packets.") != std::string::npos) g_ccmp.push_back(g_seeds.back()); if (tag.find("::tkip_packets.") != std::string::npos) g_tkip.push_back(g_seeds.back()); }
         if (g_seeds.empty()) { fprintf(stderr, "no seeds\n"); _exit(3); }
     });
 }
